@@ -484,18 +484,29 @@ func (cl *Cluster) Pump() {
 	}
 }
 
-// ConnByRemote finds the node connection whose peer (the proxy side) has the given local address.
-func (cl *Cluster) ConnByRemote(remote string) *NodeConn {
+// ConnByRemote finds the connection of the node listening at nodeAddr whose peer (the proxy side) has the given local
+// address. (The kernel hands the same ephemeral port to connections to different nodes, and to a later connection to
+// the same node: the local address alone does not identify a connection. The latest open connection is preferred.)
+func (cl *Cluster) ConnByRemote(remote, nodeAddr string) *NodeConn {
 	cl.mu.Lock()
 	defer cl.mu.Unlock()
+	var closed *NodeConn
 	for _, n := range cl.Nodes {
-		for _, nc := range n.Conns {
-			if nc.Remote == remote {
-				return nc
+		if n.Addr != nodeAddr {
+			continue
+		}
+		for k := len(n.Conns) - 1; k >= 0; k-- { // (the latest first)
+			if nc := n.Conns[k]; nc.Remote == remote {
+				if !nc.Closed && !nc.PeerEOF {
+					return nc
+				}
+				if closed == nil {
+					closed = nc
+				}
 			}
 		}
 	}
-	return nil
+	return closed
 }
 
 func (cl *Cluster) keyTok(key string) (Tok, bool) {
